@@ -171,6 +171,13 @@ def main(tier, seed, only=None):
     groups.append(dict(H.GROUP_RESULTS, cases=H.result_cases(thorough)))
     groups.append(dict(H.GROUP_LP, cases=H.lp_cases(thorough)))
     groups.append(dict(H.GROUP_HASH, cases=H.hash_cases(thorough, seed)))
+    # fifth carrier: module- or class-level leftovers in the supply classes (a table filled on first use, an input rewritten in place): a series computed after an
+    # earlier computation of the same kind from other (symbolic) inputs must still be the documented function of its own inputs
+    from harness import C08_supply as C8
+    groups.append(dict(name="supply_series_after_an_earlier_computation", fn="harness.C08_supply:worker_series", cases=C8.history_cases(), replay=C8.replay_series,
+                       functions=["OutdoorCrops.get_year_1_ratio_using_fraction_harvest_before_may", "Seafood.set_seafood_production", "StoredFood.calculate_stored_food_to_use"],
+                       bounds="first-year rule, fish series (48 months, two symbolic variants), stored food: each computed twice in one process from different inputs",
+                       symbolic="the inputs of both computations (own symbols each)", assumptions=["as C08"], stubs=["as C08"], outside=["the other supply classes in this order-of-runs form (their single-run closed forms are C08)"]))
     if not only or "options_object_survives_a_run" in only:
         # third carrier: run_model_no_trade hands ONE options dictionary to every country of a batch; the only code that rewrites options per country is the
         # known-to-fail table.  CrossHair (symbolic country code and option choice) decides that the rewrite goes to a private copy.
